@@ -359,6 +359,11 @@ pub fn suite(check: &str, thorough: bool) -> Suite {
         "C16" => c16(thorough),
         "C17" => c17(thorough),
         "C19" => c19(thorough),
+        "C18" => Suite {
+            cfg: cfg(&[Oracle::Outcome], &[], false, false),
+            programs: vec![],
+            rule: String::new(),
+        },
         _ => panic!("unknown check {check}"),
     }
 }
